@@ -27,7 +27,9 @@
                       such an element frees that block and leaves the pointer dangling (`.tupFreed / .arrFreed / .strFreed`)
     src/Alloc.c       del_by: `dealloc(destruct(self))`; whether a class test comes first is read from the source
                       (`Config.delRawClassFirst`: not in the code that exists; the repair proposed for KF-C19-delraw-embedded)
-    src/Iter.c        what Range / Slice / Zip / Filter / Map hand out
+    src/Iter.c        what Range / Slice / Zip / Filter / Map hand out; what `copy` of such a view object does (`copyViewOutcome`)
+    src/GC.c          the type pointer of a header is not traced (GC_Recurse, GC_Mark_Item) and GC_Sweep releases in slot order:
+                      a run-time Type object can be released before, or under, its instances (`Obj.usesRt`, `St.typeLost`)
 
   Everything a source change can flip is a parameter (`Config`) whose current value `Config.current` is computed from
   the generated CelloGen/Hdr.lean; the theorems of CelloProofs/Props/C19.lean are proved for every `Config` that is
@@ -76,6 +78,12 @@ def guardOf (fn : String) : Guard :=
   match CelloGen.Hdr.reallocFns.lookup fn with
   | some evs => guardFromEvents evs
   | none => { classes := [], exc := "", first := false, boundsFirst := false }
+
+/-- does the function leave by `if (cond) { return; }` before its guard and before any mutation? -/
+def selfReturnFirst (fn cond : String) : Bool :=
+  match CelloGen.Hdr.reallocFns.lookup fn with
+  | some evs => (evs.takeWhile (fun e => !isGuardEv e && !isMutating e)).contains (.retIf cond)
+  | none => false
 
 /-- class written by the header site `(fn, type expression)`; 0 (no class) when the site no longer exists -/
 def siteClass (fn ty : String) : Nat :=
@@ -157,6 +165,7 @@ structure Config where
   remPendFinalises : Bool -- ... and the object is finalised there
   remRegErase : When      -- GC_Rem_Ptr, object found in the registry: entry erased before / after / never
   boxDelDeletes : Bool    -- Box_Del `del`s the pointee
+  sAssignSelfReturns : Bool -- String_Assign: `if (val is s->val) { return; }` before the guard and before any mutation (fix 744a45f)
 deriving Repr
 
 /-- the configuration of the code that is in /repo now -/
@@ -192,7 +201,8 @@ def Config.current : Config :=
     remPendClear := whenOf .clear CelloGen.Hdr.remPendingEvents,
     remPendFinalises := CelloGen.Hdr.remPendingEvents.contains .finalise,
     remRegErase := whenOf .erase CelloGen.Hdr.remRegistryEvents,
-    boxDelDeletes := CelloGen.Hdr.boxDelEvents == [.test, .finalise, .clear] }
+    boxDelDeletes := CelloGen.Hdr.boxDelEvents == [.test, .finalise, .clear],
+    sAssignSelfReturns := selfReturnFirst "String_Assign" "val is s->val" }
 
 /-- a guard that protects stack and static objects, before anything is changed, and lets heap and embedded ones through -/
 def Guard.Protects (cfg : Config) (g : Guard) : Bool :=
@@ -1050,22 +1060,53 @@ def St.viewItems (cfg : Config) (s : St) (v : View) : Option (List (Option Seen)
 
 /-! ## the collector -/
 
-/-- is some live object of run-time type `k`, or a container of such objects, still around? -/
-def St.typeInUse (s : St) (k : Nat) : Bool :=
-  s.objs.any (fun p => p.2.live && (p.2.hdr.ty == some (.rt k) ||
-    (match p.2.body with
+/-- **the type edge**: the header of the object (or the element / key / value slots of the container) points to the Type
+    object of run-time type `k`.  `type_of`, every method call, the destructor and `dealloc` of the object go through that
+    pointer; the collector neither marks through it nor orders releases by it. -/
+def Obj.usesRt (o : Obj) (k : Nat) : Bool :=
+  o.hdr.ty == some (.rt k) ||
+    (match o.body with
      | .seq _ ety _ => ety == .rt k
      | .map _ kty vty _ => kty == .rt k || vty == .rt k
-     | _ => false)))
+     | _ => false)
+
+/-- … and its finalisation goes through that pointer: `destruct(x)` looks the destructor up in `type_of(x)`; the destructor
+    of a container destructs its elements — an **empty** container's destructor never touches the element type -/
+def Obj.usesRtAtDel (o : Obj) (k : Nat) : Bool :=
+  o.hdr.ty == some (.rt k) ||
+    (match o.body with
+     | .seq _ ety es => ety == .rt k && !es.isEmpty
+     | .map _ kty vty ents => (kty == .rt k || vty == .rt k) && !ents.isEmpty
+     | _ => false)
+
+/-- is some live object of run-time type `k`, or a container of such objects, still around? -/
+def St.typeInUse (s : St) (k : Nat) : Bool :=
+  s.objs.any (fun p => p.2.live && p.2.usesRt k)
+
+/-- the live objects whose header (or element slots) point to the Type object of run-time type `k` -/
+def St.usersOf (s : St) (k : Nat) : List Nat := (s.objs.filter (fun p => p.2.live && p.2.usesRt k)).map (·.1)
+
+/-- the live objects whose finalisation reads the Type object of run-time type `k` -/
+def St.finUsersOf (s : St) (k : Nat) : List Nat := (s.objs.filter (fun p => p.2.live && p.2.usesRtAtDel k)).map (·.1)
+
+/-- the run-time type number, if the handle is a run-time Type object -/
+def St.rtOf (s : St) (id : Nat) : Option Nat :=
+  match s.get id with
+  | some o => (match o.body with | .tyobj (.rt k) _ => some k | _ => none)
+  | none => none
 
 def St.isTypeInUse (s : St) (id : Nat) : Bool :=
   match s.get id with
   | some o => (match o.body with | .tyobj (.rt k) _ => s.typeInUse k | _ => false)
   | none => false
 
-/-- a collector run in which exactly `victims` are found unreachable: GC_Sweep frees the registered, non-root ones -/
+/-- a collector run in which exactly `victims` are found unreachable: GC_Sweep frees the registered, non-root ones.
+    One filter is left: an object that is an item of a live Tuple is never a victim (a Tuple marks its items; a dangling item
+    is KF-C01-dangling-tuple-item, property C01) — the theorems of Props/C19.lean state it as a hypothesis on `victims`.
+    A run-time Type object is a victim like any other: nothing in GC_Recurse / GC_Mark_Item follows the type pointer of a
+    header, so a Type that only the headers of its instances refer to is found unreachable (KF-C19-type-outlived). -/
 def St.sweepVictims (s : St) (victims : List Nat) : List Nat :=
-  (s.reg.filter (fun p => victims.contains p.1 && !p.2 && !s.isTypeInUse p.1 && !s.referenced p.1)).map (·.1)
+  (s.reg.filter (fun p => victims.contains p.1 && !p.2 && !s.referenced p.1)).map (·.1)
 
 /-- the slot order of a collection: the victims listed in `order` first, in that order, then the others (in registration
     order).  The slot order of the registry depends on the addresses; it is a parameter of every collection, the theorems
@@ -1115,16 +1156,43 @@ def St.sweep (cfg : Config) (s : St) (victims order : List Nat) : St × List Nat
 /-- the teardown (`GC_Del`, from `Cello_Exit`): a sweep with nothing marked — every registered object that is not a root -/
 def St.exitVictims (s : St) : List Nat := (s.reg.filter (fun p => !p.2)).map (·.1)
 
-/-- is a run-time Type object among the objects the teardown releases? (its instances may be finalised after it: the
-    engine does not exercise that) -/
-def St.exitHasType (s : St) : Bool :=
-  s.exitVictims.any (fun id => match s.get id with
-    | some o => (match o.body with | .tyobj _ _ => true | _ => false)
-    | none => false)
-
 def St.teardown (cfg : Config) (s : St) (order : List Nat) : St × List Nat × Outcome :=
   let r := s.collect cfg (arrange order s.exitVictims)
   (r.1, r.1.freed.drop s.freed.length, r.2)
+
+/-! ### the type edge and the release order (KF-C19-type-outlived)
+
+  `rel` is the sequence of blocks a collection released, in order (the release log is exact: an object's destructor and
+  `dealloc` run immediately before its block is freed).  Everything is judged in the state `s` *before* the collection. -/
+
+/-- **a Type is released before one of its instances**: somewhere in `rel` the block of a run-time Type object comes before
+    the block of an object (or non-empty container) of that type.  When the later object is finalised, `destruct` / `dealloc` call
+    `type_of` on it and look methods up in the released Type: use of a freed block. -/
+def St.typeFirst (s : St) : List Nat → Bool
+  | [] => false
+  | a :: rest =>
+    (match s.rtOf a with
+     | some k => rest.any (fun b => (s.finUsersOf k).contains b)
+     | none => false) || s.typeFirst rest
+
+/-- **a Type is released under its living instances**: `rel` holds a run-time Type object, and a live object of that type
+    is not in `rel` — it goes on living with a header that points into a freed block; the next `type_of`-dependent use, the
+    next mark phase that meets it and the teardown read released memory. -/
+def St.typeOrphans (s : St) (rel : List Nat) : Bool :=
+  rel.any (fun a => match s.rtOf a with
+    | some k => (s.usersOf k).any (fun u => !rel.contains u)
+    | none => false)
+
+/-- a forced or threshold collection that released `rel` loses a Type: released before, or under, an instance -/
+def St.typeLost (s : St) (rel : List Nat) : Bool := s.typeFirst rel || s.typeOrphans rel
+
+/-- outcome of a collection (`sweep`, `thr`) whose release mechanics ended with `out` after releasing `rel`: undefined
+    behaviour as soon as a Type is lost.  The harness observes such a collection in a forked child (which then asks the
+    orphans for the name of their type); the program that goes on is the parent, with the state before the collection. -/
+def St.sweepOutcome (s : St) (rel : List Nat) (out : Outcome) : Outcome := if s.typeLost rel then .ub else out
+
+/-- outcome of the teardown: the process ends after it, so only "released before an instance is finalised" matters -/
+def St.teardownOutcome (s : St) (rel : List Nat) (out : Outcome) : Outcome := if s.typeFirst rel then .ub else out
 
 /-! ## operations -/
 
@@ -1279,6 +1347,17 @@ def copyBody (cfg : Config) (s : St) (o : Obj) : Option (Ty × Body) :=
   | some t, .map k kty vty ents => some (t, .map k kty vty (ents.map (fun e => mapEntry cfg s k kty vty e.1.val e.2.val)))
   | _, _ => none
 
+/-- **`copy(v)` of a view object** (`Range`, `Slice`, `Zip`, `Filter`, `Map` of src/Iter.c; `none` = not a view type).
+    None of them has a `Copy` instance, so `copy` is `assign(alloc(type_of(v)), v)` (src/Alloc.c) and `alloc` returns a zeroed,
+    registered object.  `Range_Assign`, `Slice_Assign` and `Zip_Assign` assign *into* a sub-object (`r->value`, `s->range`,
+    `z->iters`, `z->values`) that only the constructor creates: `assign(NULL, ..)` → `type_of(NULL)` → ValueError, and the
+    half-built object stays registered (KF-C19-copy-view).  Filter and Map have no Assign: the struct is copied.
+    Which fields each Assign assigns into without creating them is read from the source (`CelloGen.Hdr.viewCopy`). -/
+def copyViewOutcome (name : String) : Option Outcome :=
+  match CelloGen.Hdr.viewCopy.find? (fun r => r.1 == name) with
+  | some (_, hasCopy, into) => some (if hasCopy || into.isEmpty then .ok else .raised "ValueError")
+  | none => none
+
 /-- the built-in static Type objects the engine looks at -/
 def knownStatics : List String :=
   ["Type", "Int", "Float", "String", "Tuple", "Array", "List", "Table", "Tree", "Ref", "Box", "Range", "Slice", "Zip",
@@ -1387,7 +1466,15 @@ def stepInplace (cfg : Config) (s : St) (ip : InPlace) (t : Target) : St × Obs 
    | none => (s, .bad)
    | some o =>
      if !o.live then (s, .skip "dead") else
-     if ip.srcs.contains t.id then (s, .skip "self") else
+     if ip.srcs.contains t.id then
+       -- the target among its own arguments.  `assign(s, s)` of a String: `char* val = c_str(obj); if (val is s->val) { return; }`
+       -- (fix 744a45f) — before the allocation-class guard, so also a stack or static String is left as it is and nothing is
+       -- raised; in the code before the fix the same call reallocated the buffer and copied from the released one (heap) or
+       -- raised ValueError (stack, static): that variant, and every other aliasing operand, stays outside the histories
+       (match ip, t, o.body with
+        | .assign _, .obj _, .scalar (.str _) =>
+          if cfg.sAssignSelfReturns then (s, .did "assign" .ok t) else (s, .skip "self")
+        | _, _, _ => (s, .skip "self")) else
      match t with
      | .obj id =>
        (match inPlaceObj cfg s o ip with
@@ -1430,14 +1517,13 @@ def step (cfg : Config) (s : St) (op : Op) : St × Obs :=
   | .own id target => stepOwn cfg s id target
   | .sweep victims order =>
     let r := s.sweep cfg victims order
-    (r.1, .swept "sweep" r.2.1 r.2.2)
+    if s.typeLost r.2.1 then (s, .swept "sweep" r.2.1 .ub) else (r.1, .swept "sweep" r.2.1 r.2.2)
   | .thr victims order =>
     let r := s.sweep cfg victims order
-    (r.1, .swept "thr" r.2.1 r.2.2)
+    if s.typeLost r.2.1 then (s, .swept "thr" r.2.1 .ub) else (r.1, .swept "thr" r.2.1 r.2.2)
   | .exit order =>
-    if s.exitHasType then (s, .skip "unsupported") else
     let r := s.teardown cfg order
-    (s, .swept "exit" r.2.1 r.2.2)       -- the program that goes on is the parent: its state is unchanged
+    (s, .swept "exit" r.2.1 (s.teardownOutcome r.2.1 r.2.2))   -- the program that goes on is the parent: its state is unchanged
   | .finish => (s, .fin)
 
 def run (cfg : Config) (s : St) (ops : List Op) : St := ops.foldl (fun st op => (step cfg st op).1) s
